@@ -53,6 +53,7 @@ class Recorder:
         self.scripts: dict[str, list[Any]] = {}
         self.call_seq = 0
         self._instances: dict[int, tuple[int, Any]] = {}
+        self.login_count: dict[str, int] = {}
         self.snapshot_indices: bool = False
         self.index_ids: list[str] = []
         self.extra_call_fields: Callable[[dict[str, Any], dict[str, Any]], None] | None = None
@@ -377,6 +378,33 @@ def _register(rec: Recorder, registry: Any, spec: dict[str, Any]) -> None:
             return result
         activity.__name__ = activity.__qualname__ = hid
         getattr(kopf.on, kind)(id=hid, registry=registry, **opts)(activity)
+    elif kind == 'login':
+        # a login handler handing out a FRESH fake session (new token) of the calling incarnation; spec['delay'] = how long the login takes
+        async def login(**kw: Any) -> Any:
+            from kopf._cogs.structs import credentials
+            call = rec.call(hid, kind, kw)
+            try:
+                atom = rec.next_atom(hid, None)
+                if atom != ['ok']:
+                    await play(rec, call, atom, kw)
+                if spec.get('delay'):
+                    await asyncio.sleep(float(spec['delay']))
+                inc = call['inc']
+                old = rec.sim.kube.clients.get(inc)
+                new = rec.sim.kube.client(inc)              # same identity for the logs, a new session object and token
+                rec.login_count[inc] = rec.login_count.get(inc, 0) + 1
+                new.token = f"{inc}-tok{rec.login_count[inc]}"
+                new.on_kill = old.on_kill if old is not None else None
+                for i2 in rec.sim.incarnations:
+                    if i2.name == inc:
+                        i2.client = new
+            except BaseException as e:
+                rec.ret(call, _outcome_name(e), exc=type(e).__name__)
+                raise
+            rec.ret(call, 'ok', token=new.token)
+            return credentials.AiohttpSession(server='http://fake', aiohttp_session=new)
+        login.__name__ = login.__qualname__ = hid
+        kopf.on.login(id=hid, registry=registry, **opts)(login)
     else:
         raise ValueError(f"unknown handler kind {kind!r}")
 
